@@ -538,6 +538,9 @@ pub struct Stats {
     pub states: usize,
     pub transitions: usize,
     pub depth_completed: usize,
+    /// States on which the state-level rider ran to the end / states it was due on.
+    pub rider_states_done: usize,
+    pub rider_states_total: usize,
     pub executions: usize,
 }
 
@@ -575,15 +578,19 @@ pub fn explore(
     let mut depth_completed = 0;
     let menu = set_menu(full_menu);
     // State-level riders run on seeds too.
+    let rider_done = AtomicUsize::new(0);
+    let rider_total = AtomicUsize::new(0);
     let run_on_states = |sts: &[HState]| {
         if let Some(f) = on_state {
-            par_for(sts.len(), budget, |w, i| {
+            rider_total.fetch_add(sts.len(), Ordering::SeqCst);
+            let done = par_for(sts.len(), budget, |w, i| {
                 let _g = announce(w, || format!("{rider} state {:?}", sts[i].describe_path()));
                 for (v, case) in f(&sts[i], &scratches[w], &srcs) {
                     report.violation(&v, &case);
                 }
                 scratches[w].clear();
             });
+            rider_done.fetch_add(done, Ordering::SeqCst);
         }
     };
     run_on_states(&frontier);
@@ -745,6 +752,8 @@ pub fn explore(
         transitions: transitions.load(Ordering::SeqCst),
         depth_completed,
         executions: executions.load(Ordering::SeqCst),
+        rider_states_done: rider_done.load(Ordering::SeqCst),
+        rider_states_total: rider_total.load(Ordering::SeqCst),
     }
 }
 
@@ -754,7 +763,11 @@ pub fn write_stats(report: &Report, st: &Stats, max_depth: usize) {
     report.set("traces_validated_against_impl", json!(st.executions));
     report.set("depth_completed", json!(st.depth_completed));
     report.set("depth_target", json!(max_depth));
-    report.set("exhaustive", json!(st.depth_completed == max_depth));
+    report.set("exhaustive", json!(st.depth_completed == max_depth && st.rider_states_done == st.rider_states_total));
+    if st.rider_states_total > 0 {
+        report.set("state_rider_states_done", json!(st.rider_states_done));
+        report.set("state_rider_states_total", json!(st.rider_states_total));
+    }
     report.set("explanation", json!("states are (source state, canonical archive bytes, model); every transition is an execution of the real tool from a copy of the parent's archive, so every trace is validated against the implementation by construction"));
     report.assume("event alphabet of DESIGN.md section 3/E1; one source-slot change fused with each backup event; start_time/end_time masked in state keys");
 }
